@@ -36,9 +36,14 @@ func (r *runner) hammer(a int, stop <-chan struct{}, wg *sync.WaitGroup) {
 		if isAdmin(a) {
 			ep = &r.admEpoch
 		}
-		lo, e0 := r.lo.Load(), ep.Load()
+		lo, hi0, e0 := r.lo.Load(), r.hi.Load(), ep.Load()
 		ans, g, detail := r.env.get(a, "/id", probeTimeout)
 		hi, e1 := r.hi.Load(), ep.Load()
+		if hi0 > hi {
+			// the load during which we connected was rejected and has drained while the answer was on
+			// its way (hi falls back to the running config): its config was alive when it accepted us
+			hi = hi0
+		}
 		r.traffic.mu.Lock()
 		switch {
 		case g < 0 && (ans == ansRefused || ans == ansNoEnt):
